@@ -30,6 +30,9 @@ inductive MOp where
   /-- add_message / add_vmessage to user `k` in a case that scripts `receive_snoop` reactions: the call can reach every
   user, so the state of every user is shown after it -/
   | writeR (k : Nat) (v : Bool) (data : List Byte)
+  /-- the peer of telnet user `k` sent these bytes; one poll + process_io pass: `k`: EVENT_READ (get_user_data ->
+  copy_chars -> replies) then EVENT_WRITE; every other user: its write-ready event -/
+  | input (k : Nat) (bs : List Byte)
   deriving Repr
 
 /-- a user slot: `none` until the user connects -/
@@ -123,6 +126,43 @@ def writeW : Nat → World → Nat → Bool → List Byte → WR
       | none => (w1, [], true)
       | some b => reactStep (writeW fuel) w1 b d
 
+/-- the output calls copy_chars makes for one input byte, carried out on user `k` -/
+def tactW (w : World) (k : Nat) : List TAct → World × List TEv
+  | [] => (w, [])
+  | a :: r =>
+    let x := stepAt w k (match a with
+      | .msg v d => .writeQ v d
+      | .fl => .flushQ)
+    let y := tactW x.1 k r
+    (y.1, x.2 ++ y.2)
+
+/-- `copy_chars (buf, .., num_bytes, ip)` for user `k`: byte by byte; `lm` = the global `telnet_sb_lm_mode[4]` -/
+def inputW (w : World) (k : Nat) : List Byte → Nat → World × List TEv
+  | [], _ => (w, [])
+  | b :: bs, lm =>
+    match getU w k with
+    | none => (w, [])
+    | some s =>
+      let r := telByte lm s.tel b
+      let x := stepAt w k (.telSet r.tel (r.lm != lm))
+      let y := tactW x.1 k r.acts
+      let z := inputW y.1 k bs r.lm
+      (z.1, x.2 ++ y.2 ++ z.2)
+
+/-- `telnet_sb_lm_mode[4]` now: its initialiser, or `MODE_EDIT | MODE_TRAPSIG` once any user's WILL LINEMODE stored that -/
+def lmNow (w : World) : Nat :=
+  if w.any (fun o => o.any (fun s => s.lmSet)) then NV.Gen.C14.modeEDIT ||| NV.Gen.C14.modeTRAPSIG
+  else NV.Gen.C14.telSbLmMode.getD NV.Gen.C14.lmModeIndex 0
+
+/-- get_user_data: `if (ip->snoop_by ..) receive_snoop (buf, ip->snoop_by->ob)` - the raw input as a C string -/
+def inputSnoopW (w : World) (k : Nat) (bs : List Byte) : List TEv :=
+  match (getU w k).bind (fun s => s.snoopBy) with
+  | some b => [(b, Ev.snoop b (cstr bs))]
+  | none => []
+
+/-- input can be fed to a live PORT_TELNET user only (otherwise the pass is a plain write-ready pass) -/
+def canInput (w : World) (k : Nat) : Bool := (getU w k).any (fun s => !s.closed && s.telnet && !s.console)
+
 /-- more than the number of scripted reactions left: every nested add_message consumes one -/
 def fuelOf (w : World) : Nat := w.foldl (fun n o => n + (o.map (fun s => s.react.length)).getD 0) 2
 
@@ -146,6 +186,16 @@ def stepM (w : World) : MOp → World × List TEv
     match getU w k with
     | some sk => if sk.closed then (w, []) else (dropSnooper w k, [])
     | none => (w, [])
+  | .input k bs =>
+    if canInput w k then
+      let want0 := (getU w k).any (fun s => s.want)
+      let a := inputW w k bs (lmNow w)
+      let sn := inputSnoopW a.1 k bs
+      -- EVENT_WRITE of the same event record (interest as registered when the events were collected)
+      let f := if want0 then stepAt a.1 k .flushQ else (a.1, [])
+      let rest := stepEach (fun u => if u = k then .showSt else .wready) (List.range w.length) f.1
+      (rest.1, a.2 ++ sn ++ f.2 ++ rest.2)
+    else stepEach (fun _ => .wready) (List.range w.length) w
   | .writeR k v d =>
     let r := writeW (fuelOf w) w k v d
     -- the harness catches the error after the call and prints `lpcerr`, then the state of every user
